@@ -23,6 +23,7 @@ mod c18;
 mod c19;
 mod c20;
 mod dynaut;
+mod core;
 
 use common::*;
 use std::io::Write;
